@@ -1,5 +1,8 @@
 import Martian.Typing
 import Martian.TypingPipeline
+import Martian.TypingRun
+import Martian.TypingStrict
+import Martian.TypingProgram
 import Driver.Util
 import Driver.C17
 
@@ -39,6 +42,10 @@ Pipelines (Martian/TypingPipeline.lean):
                                  | `call <i> binds <cls,…>` | `unused <hexlist>` | `ret <cls,…>` | `retain <i>`
                                  (first failure, in the order of `checkPipeline`; must agree with `validPipeline`)
   top     <cstm>               → `ok <shape>` | `bad <cls,…>`   (top-level call statement, `checkTop`)
+  path    <type|-> <type> <json> <path> new|old → `<json>` | `none`   (`pathVal` / `wholeRT`: LazyArgumentMap.Path
+                                 with destination type, source type, value; `old` = before repair 85e056c)
+  prog    <n> <pipe>{n} <cstm> <fuel> → `accepted=<b> progOk=<b> fits=<b> pipes=<b,…>`  (hypotheses of program_sound_partial)
+  hyp     <env> <type> <exp>   → `<t.wf> <e.wf> <holeFree>`
   sretain <nouts> (<out> <type>){nouts} <hexlist>   → `true` | `false`
   strict  <env> <type> <exp>   → `<validExp> <overStrict>`
 -/
@@ -255,6 +262,54 @@ def parsePipe : List String → Option (Pipeline × List String)
             retain := retain }, r)
   | [] => none
 
+/-- which conjuncts of `okStm` fail (diagnosis only) -/
+def whyStm (P : Prog) (Γ : Env) (c : CallStm) (sh : Option SplitShape) : List String :=
+  (if c.callee.params.all (fun p => p.2.wf) && (Ty.struct c.callee.name c.callee.outs).wf then [] else ["wf"]) ++
+  (if decide ((c.callee.params.map Prod.fst).Nodup) then [] else ["dupparam"]) ++
+  (match allBinds Γ c.callee.params c.binds c.wild with
+    | none => ["nobinds"]
+    | some bs =>
+      (if bs.all (fun ib => ib.2.wf) then [] else ["expwf"]) ++
+      (if bs.all (fun ib => match c.callee.params.lookup ib.1 with
+          | some t => bindHoleFreeT Γ t ib.2
+          | none => true) then [] else ["hole"])) ++
+  (match sh with
+    | some (.map _) => if isDirMap (Ty.struct c.callee.name c.callee.outs) then ["dirmap"] else []
+    | _ => []) ++
+  (if c.callee.isStage || (match P.find c.callee.name with
+      | some q => calleeEq q.callee c.callee
+      | none => false) then [] else ["callee"])
+
+def whyCalls (P : Prog) : Env → List CallStm → List String
+  | _, [] => []
+  | Γ, c :: r =>
+    match checkStm Γ c with
+    | none => ["reject"]
+    | some sh => whyStm P Γ c sh ++ whyCalls P { Γ with calls := Γ.calls ++ [(c.id, c.sig sh)] } r
+
+def whyPipe (P : Prog) (p : Pipeline) : List String :=
+  (if validPipelineU p then [] else ["reject"]) ++
+  (if p.ins.all (fun i => i.2.wf) && (Ty.struct p.name p.outs).wf then [] else ["wf"]) ++
+  whyCalls P { self := p.ins, calls := [] } p.calls ++
+  (match checkCalls { self := p.ins, calls := [] } p.calls with
+    | none => []
+    | some Γ =>
+      match allBinds Γ p.outs.toList p.ret p.retWild with
+      | none => ["nobinds"]
+      | some bs =>
+        if bs.all (fun ib => match ib.2 with
+          | .plain e => e.wf && (match p.outs.toList.lookup ib.1 with
+              | some t => holeFree Γ t (bindExp Γ t e)
+              | none => true)
+          | .split _ => false) then [] else ["rethole"])
+
+partial def parsePipes : Nat → List String → Option (List Pipeline × List String)
+  | 0, r => some ([], r)
+  | c + 1, r => do
+    let (x, r) ← parsePipe r
+    let (xs, r) ← parsePipes c r
+    pure (x :: xs, r)
+
 def showModErr : ModErr → String
   | .dup => "dup" | .type => "type" | .conflict => "conflict" | .unsupported => "unsupported"
   | .preBinding => "preBinding" | .preOutput => "preOutput"
@@ -361,6 +416,48 @@ def handle (op : String) (args : List String) : Option String :=
   | "top", [c] => do
     let c ← whole parseStm c
     pure (diagTop c)
+  | "path", [dest, t, v, p, how] => do
+    -- LazyArgumentMap.Path(p, t, dest) on the value v (after / before repair 85e056c)
+    let dest ← (if dest == "-" then some none else (whole parseTy dest).map some)
+    let t ← whole parseTy t
+    let v ← whole parseJ v
+    let p ← parseHexList p
+    let r := match p with
+      | [] => (match dest with | some d => wholeRT d v | none => some v)
+      | _ => if how == "old" then pathValG peelMapDOld dest t v p else pathVal dest t v p
+    match r with
+    | some w => pure (showJ w)
+    | none => pure "none"
+  | "prog", [arg] => do
+    -- all hypotheses of Props.C07.program_sound_partial on one program
+    let toks := arg.splitOn " "
+    match toks with
+    | n :: r => do
+      let n ← n.toNat?
+      let (pipes, r) ← parsePipes n r
+      let (top, r) ← parseStm r
+      match r with
+      | [fuel] => do
+        let fuel ← fuel.toNat?
+        let P : Prog := { pipes := pipes }
+        let accepted := pipes.all validPipelineU && validTop top
+        pure (" ".intercalate ["accepted=" ++ boolStr accepted, "progOk=" ++ boolStr (progOk P top),
+          "fits=" ++ boolStr (fits P fuel top.callee)] ++
+          " pipes=" ++ ",".intercalate (pipes.map fun q => boolStr (okPipe P q)) ++
+          " why=" ++ ",".intercalate ((pipes.flatMap (whyPipe P)).eraseDups))
+      | _ => none
+    | [] => none
+  | "hyp", [env, t, e] => do
+    -- the decidable hypotheses of the soundness theorems on one binding
+    let Γ ← whole parseEnv env
+    let t ← whole parseTy t
+    let e ← whole parseExp e
+    pure (" ".intercalate [boolStr t.wf, boolStr e.wf, boolStr (holeFree Γ t e)])
+  | "strict", [env, t, e] => do
+    let Γ ← whole parseEnv env
+    let t ← whole parseTy t
+    let e ← whole parseExp e
+    pure (" ".intercalate [boolStr (validExp Γ t e), boolStr (overStrict Γ t e)])
   | "sretain", [outs, ids] => do
     let outs ← whole (counted parseTyped) outs
     let ids ← parseHexList ids
